@@ -1065,6 +1065,53 @@ def run_block(case):
             samples[skey] = {"key": h, "class": cls, "depth": ref.depth, "expr": show(tree),
                              "expected": res["info"].get("expected"), "observed": res["info"].get("observed"),
                              "outcome": res["outcome"]}
+    # ---- operand re-use with an in-place element change between two operations --------------------------------
+    # arithmetic is arithmetic on the operands' CURRENT SI values: an array that was an operand once, had one element
+    # replaced (set_at / value[i] = x / set_value) and is an operand again must contribute its new value
+    from fractions import Fraction as _Fr
+    for k in range(max(4, case["n"] // 40)):
+        A_, B_ = r.choice(si.ALL_SYSTEMS), r.choice(si.ALL_SYSTEMS)
+        d3 = (r.randint(-2, 2), r.randint(-2, 2), r.randint(-2, 2))
+        mkU = lambda s3, dd: U.Units(U.UnitsSystem(space=s3[0], time=s3[1], quantity=s3[2]),
+                                     U.UnitsDimensions(space=dd[0], time=dd[1], quantity=dd[2]))
+        vals = [float(r.randint(1, 9)) for _ in range(r.randint(1, 4))]
+        arr = U.UnitArray(list(vals), mkU(A_, d3))
+        op = r.choice(["+", "*", "-", "/"])
+        od3 = d3 if op in "+-" else (r.randint(-1, 1), r.randint(-1, 1), r.randint(-1, 1))
+        other_v = float(r.randint(1, 9))
+        other = U.UnitValue(other_v, mkU(B_, od3)) if r.random() < 0.6 else U.UnitArray([other_v] * len(vals), mkU(B_, od3))
+        try:
+            BIN[op](other, arr)
+            kk = r.randrange(len(vals))
+            newx = float(r.randint(11, 19))
+            how = r.choice(["set_at", "index", "set_value"])
+            if how == "set_at":
+                arr.set_at(kk, U.UnitValue(newx, mkU(A_, d3)))
+            elif how == "index":
+                arr.value[kk] = newx
+            else:
+                nv = list(vals)
+                nv[kk] = newx
+                arr.set_value(nv)
+            vals[kk] = newx
+            res2 = BIN[op](other, arr)
+            counts["operand_reuse_checks"] = counts.get("operand_reuse_checks", 0) + 1
+            rs, rd_ = si.sys_of(res2.units.sys), si.dim_of(res2.units.dim)
+            o_si = _Fr(other_v) * si.scale(B_, od3)
+            for i_, x_ in enumerate(vals):
+                a_si = _Fr(x_) * si.scale(A_, d3)
+                want = {"+": o_si + a_si, "-": o_si - a_si, "*": o_si * a_si, "/": o_si / a_si}[op]
+                got = _Fr(float(res2.value[i_])) * si.scale(rs, rd_)
+                tol = _Fr(1, 10 ** 11) * (abs(o_si) + abs(a_si) if op in "+-" else abs(want))
+                if abs(got - want) > tol:
+                    bad.append({"what": "an operand whose element was replaced in place contributes its OLD value the second time",
+                                "op": op, "how": how, "element": i_, "got_si": float(got), "expected_si": float(want),
+                                "other": [other_v, B_, od3], "array_units": [A_, d3],
+                                "case": {"seed": case["seed"], "block": case["block"], "k": "reuse%d" % k}, "class": "reuse"})
+                    break
+        except Exception as e:
+            bad.append({"what": "operand re-use: exception on a valid expression", "error": "%s: %s" % (type(e).__name__, e), "op": op,
+                        "case": {"seed": case["seed"], "block": case["block"], "k": "reuse%d" % k}, "class": "reuse"})
     log, ccounts = contracts.drain()
     clog = []
     for name, w in log:
